@@ -2,6 +2,7 @@
   Families over index files (C18; `idxmut` for C10):
     idxfile   random well-formed files of every access method, 1..size pages
     idxflags  every flag word of every method, 64 pages per file
+    idxflagorder  the same files; the flag names of every page in the order the tool emits them (model only)
     idxcycle  B-tree first pages with every cycle id
     idxmeta   metapages with fields from their full range
     idxmut    malformed files (must not panic)
@@ -42,10 +43,6 @@ def typeNo (am : AM) : Nat :=
   | some e => e.1
   | none => 99
 
-/-- the flag bits the tool has a name for -/
-def vocab (am : AM) : List Nat :=
-  (List.range 16).filter fun k => (Model.Index.flagTable (typeNo am)).any fun e => e.1 == 2 ^ k
-
 def showMetaS : Option Spec.Index.MetaView → String
   | none => "~"
   | some (.btree a b c d e f) => s!"bt:{a}:{b}:{c}:{d}:{e}:{f}"
@@ -53,7 +50,7 @@ def showMetaS : Option Spec.Index.MetaView → String
   | some (.gin a b c d e f g h i j) => s!"gin:{a}:{b}:{c}:{d}:{e}:{f}:{g}:{h}:{i}:{j}"
 
 def showPageS (p : Spec.Index.PageView) : String :=
-  let names := Spec.Index.flagNamesView p.am (vocab p.am) p.flags
+  let names := Spec.Index.flagNamesView p.am p.flags
   s!"{p.number}:{typeNo p.am}:{p.am.name}:{p.flags}:{joinWith "+" (sortStrs names)}:{b2s p.isMeta}{b2s p.isLeaf}{b2s p.isRoot}{b2s p.isDeleted}:{p.level}:{p.prev}:{p.next}:{p.right}:{p.itemCount}:{p.freeSpace}:{p.lsn}:{p.lsnStr}"
 
 def showViewS (v : Spec.Index.FileView) : String :=
@@ -81,15 +78,36 @@ def amOf (i : Nat) : AM := AM.all.getD (i % 6) .btree
 
 /-! ### idxfile -/
 
+/-- item counts per page kind (fix 09; REVIEW C18 findings 1 and 4): after the GIN metapage — itself a page without items,
+although its pd_lower lies 52 bytes behind the header — a GIN entry-tree leaf with 3 line pointers and maxoff 0 (3 items,
+the tool said 0), an entry-tree internal page, a pending-list page (maxoff = heap rows, 5 line pointers), a posting-tree
+internal page (maxoff 7 posting items, pd_lower irrelevant), an uncompressed and a compressed posting-tree leaf; a hash file
+with a bitmap page and an overflow page; a BRIN file: metapage, range map (no items), regular page; a B-tree metapage with
+pd_lower = 72 (0 items, the tool said 12) -/
+def itemCountFiles : List File :=
+  let gin (k lower maxoff flags : Nat) : Page := { (Gen.Index.plainPage .gin flags k) with lower, op := .gin (k + 1) maxoff flags }
+  let (g0, gm) := Gen.Index.usualFirst .gin
+  let (h0, hm) := Gen.Index.usualFirst .hash
+  let (b0, bm) := Gen.Index.usualFirst .btree
+  let hash (k lower flags : Nat) : Page := { (Gen.Index.plainPage .hash flags k) with lower }
+  let brin (k lower ty : Nat) : Page := { (Gen.Index.plainPage .brin 0 k) with lower, op := .brin 0 0 (k % 2) ty }
+  [ { am := .gin, pages := [g0, gin 1 36 0 2, gin 2 64 0 0, gin 3 44 2 16, gin 4 8000 7 1, gin 5 24 300 3, gin 6 2000 0 0x83,
+                            gin 7 36 9 0x80, gin 8 36 9 0x22],
+      metaPage := gm, tail := [] },
+    { am := .hash, pages := [h0, hash 1 4120 4, hash 2 64 1, hash 3 64 2, hash 4 64 0, hash 5 64 0xF2], metaPage := hm, tail := [] },
+    { am := .brin, pages := [brin 0 56 0xF091, brin 1 8184 0xF092, brin 2 40 0xF093], metaPage := none, tail := [] },
+    { am := .btree, pages := [{ b0 with lower := 72 }, Gen.Index.plainPage .btree 3 7], metaPage := bm, tail := [] } ]
+
 /-- deterministic prefix: per method, (a) block 0 as PostgreSQL writes it, alone; (b) the same followed by two pages and a
 partial tail; (c) a non-meta first page -/
 def fixedFiles : List File :=
-  AM.all.flatMap fun am =>
+  (AM.all.flatMap fun am =>
     let (p0, m) := Gen.Index.usualFirst am
     let nm := match am.metaBit with | some _ => 0 | none => 1
     [ { am, pages := [p0], metaPage := m, tail := [] },
       { am, pages := [p0, Gen.Index.plainPage am 1 1, Gen.Index.plainPage am 2 400], metaPage := m, tail := zeros 8191 },
-      { am, pages := [Gen.Index.plainPage am nm 5, Gen.Index.plainPage am 3 2], metaPage := none, tail := [1, 2, 3] } ]
+      { am, pages := [Gen.Index.plainPage am nm 5, Gen.Index.plainPage am 3 2], metaPage := none, tail := [1, 2, 3] } ]) ++
+  itemCountFiles
 
 def idxfileGen (seed idx size : Nat) : Case :=
   if idx < fixedFiles.length then mkCase (fixedFiles.getD idx default) ["fixed"]
@@ -120,6 +138,24 @@ def idxflagsGen (_seed idx _size : Nat) : Case :=
   mkCase { am, pages := p0 :: pages, metaPage := m, tail := [] } [if blk < 16 then "bits=low10" else "bits=high"]
 
 def idxflags : Family := { name := "idxflags", gen := idxflagsGen, eval := evalFile, fixed := 6 * 16 }
+
+/-! ### idxflagorder: the flag names in emission order.  The property (and the Spec) fix the set of names, not their order, so
+`idxflags` compares sorted lists; here the model's list is compared with the tool's as it is (spec silent). -/
+
+def showOrderM : Option Model.Index.IndexInfo → String
+  | none => "ERR"
+  | some i => joinWith ";" (i.pages.map fun p => s!"{p.flags}:{joinWith "+" p.flagStrings}")
+
+def evalOrder (args : List String) : String :=
+  match args with
+  | [file] => showM showOrderM (Model.Index.parseIndexFile (unhex file))
+  | _ => "bad-args"
+
+def idxflagorderGen (seed idx size : Nat) : Case :=
+  let c := idxflagsGen seed idx size
+  { c with model := evalOrder c.args, spec := "-" }
+
+def idxflagorder : Family := { name := "idxflagorder", gen := idxflagorderGen, eval := evalOrder, fixed := 6 * 16 }
 
 /-! ### idxcycle: B-tree first pages with every cycle id (classification looks at block 0 only) -/
 
